@@ -10,15 +10,30 @@ compared with the model (bounded/fasta_gen.py), so that "identical but wrong for
 Memory clause, small scope (deterministic): every chunk yielded by get_sequence_iter / get_gap_iter holds at
 most buffer_size residues and every span requested from sequence_bytes while streaming is at most buffer_size.
 
-Memory clause, resource check: tracemalloc peak while indexing a long record and while streaming a long
-forward fragment, a long reverse fragment and a long gap (hundreds of buffers) into a sink that only hashes
-stays below 16 x buffer_size + 64 KiB (+ 8 x input line while indexing) (unchanged tree: 10-40 KB); holding the whole fragment
-(hundreds of buffers) exceeds the limit several times over.
+Memory clause, resource check: tracemalloc peaks on a file with a long mixed record and a record that is one
+long gap (each hundreds of buffers), for EVERY public route that is given a buffer size, with a small buffer:
+  - index_fasta_file(path, b);
+  - FastaIndex(path, buffer_size=b).auto_load() with no cache files, FastaIndex(path, b).auto_load() with cache
+    files older than the FASTA file, FastaIndex(path, b).run_indexing(), and auto_load() from up-to-date caches;
+  - FastaStream over the index objects those routes leave behind (the derived assembly = long forward fragments
+    and the long gap; a long reverse fragment), and over an index handed to FastaIndex(path, b) directly (long
+    forward fragment, long reverse fragment, long gap), into a sink that only hashes;
+  - thorough tier: the pretext-to-asm command (it has NO buffer option - checked in --help - so the bound is the
+    documented default of 250 000) on a chromosome 34 default buffers long, FASTA in, FASTA out, no caches.
+Allowance (memory_limit): 16 x buffer_size + 64 KiB (+ 8 x input line while indexing); unchanged tree: 5-40 KB.
+Every file has records >= 2 x that limit (4.5 x in the quick tier), and the same routes are run with a buffer larger than
+everything: those peaks (not judged; reported under memory_discrimination) are 4-13 x the limit, i.e. a route
+that ignores its small buffer and holds a record, fragment or gap whole is reported.  The routes must also
+agree on the result: same faidx rows / derived assembly as index_fasta_file(path, b), byte-identical .fai and
+.agp files for the small and the large buffer, streamed bytes hashing to the model's FASTA text.
 """
 
 import hashlib
 import io
+import os
+import pathlib
 import random
+import shutil
 import tracemalloc
 
 from tola.assembly.assembly import Assembly
@@ -178,6 +193,11 @@ def check_file(case, path, buffers, assemblies, line_length):
 # ----------------------------------------------------------------------------------------------------------
 # resource check
 
+KIB = 1024
+DEFAULT_BUFFER = 250_000  # documented default of FastaIndex / index_fasta_file, the only size the CLI can use
+_MASK = bytes(b if b in G.ACGT else 78 for b in range(256))  # every non-ACGT symbol -> N
+_COMP = bytes(G.COMPLEMENT)
+
 
 class HashSink:
     """binary sink that keeps nothing"""
@@ -206,76 +226,308 @@ def long_record(n, seed):
     return b"".join(parts)
 
 
+def gap_record(n_gap):
+    """two short contigs around ONE run of n_gap non-ACGT residues (a gap hundreds of buffers long in the file)"""
+    return b"ACGTTGCAAC" + (b"NNNNnNNRNn" * (n_gap // 10 + 1))[:n_gap] + b"GATTACA"
+
+
+def memory_limit(bs, width=0, indexing=False):
+    """
+    the documented allowance: the statement allows buffer-size residues (+ one input line while indexing); a
+    BytesIO that is filled, copied out once and wrapped costs a small multiple of that, and open files, the
+    index dict, a handful of rows and AGP text cost a constant: 16 x buffer_size + 64 KiB (+ 8 x line)
+    """
+    return 16 * bs + 64 * KIB + (8 * (width + 2) if indexing else 0)
+
+
+def traced_peak(fn):
+    """-> (peak traced bytes above the level at the call, result of fn)"""
+    was_tracing = tracemalloc.is_tracing()
+    if not was_tracing:
+        tracemalloc.start()
+    try:
+        tracemalloc.reset_peak()
+        base = tracemalloc.get_traced_memory()[0]
+        res = fn()
+        peak = tracemalloc.get_traced_memory()[1] - base
+    finally:
+        if not was_tracing:
+            tracemalloc.stop()
+    return peak, res
+
+
+def cache_paths(path):
+    return pathlib.Path(str(path) + ".fai"), pathlib.Path(str(path) + ".agp")
+
+
+def cache_bytes(path):
+    return tuple(p.read_bytes() if p.exists() else None for p in cache_paths(path))
+
+
+def drop_caches(path):
+    for p in cache_paths(path):
+        p.unlink(missing_ok=True)
+
+
+def age_caches(path):
+    """make the cache files older than the FASTA file (auto_load must then index again)"""
+    t = path.stat().st_mtime - 50
+    for p in cache_paths(path):
+        os.utime(p, (t, t))
+
+
+def index_rows(idx):
+    return tuple((n, i.length, i.file_offset, i.residues_per_line, i.max_line_length) for n, i in idx.items())
+
+
 def memory_check(d, bs, n_buffers, width, seed):
-    """-> (messages, measured peaks)"""
+    """
+    every public route that is given a buffer size, with a small buffer on a record / fragment / gap n_buffers
+    buffers long -> (messages, measured peaks).  The same routes with a buffer larger than everything are
+    measured too ("large buffer: ..."): those peaks are not judged, they show that the measurement sees a whole
+    record when one is held (see discrimination()).
+    """
     msgs = []
     n = bs * n_buffers + 17
     seq = long_record(n, seed)
-    case = G.FastaCase([G.Rec("short", b"ACGTNNAC"), G.Rec("long", seq)], width, b"\n", True)
+    gappy = gap_record(bs * n_buffers + 3)
+    case = G.FastaCase([G.Rec("short", b"ACGTNNAC"), G.Rec("long", seq), G.Rec("gappy", gappy)], width, b"\n", True)
+    big = max(DEFAULT_BUFFER, len(seq), len(gappy)) + 1000
     path = d / "mem.fa"
     case.write(path)
+    t = path.stat().st_mtime - 100
+    os.utime(path, (t, t))  # cache files written from now on are newer than the FASTA file
     peaks = {}
+    opened = []
 
-    def measured(label, fn):
-        # one input line is allowed on top of the buffers only while indexing
-        limit = 16 * bs + 64 * 1024 + (8 * (width + 2) if label.startswith("indexing") else 0)
-        was_tracing = tracemalloc.is_tracing()
-        if not was_tracing:
-            tracemalloc.start()
-        try:
-            tracemalloc.reset_peak()
-            base = tracemalloc.get_traced_memory()[0]
-            res = fn()
-            peak = tracemalloc.get_traced_memory()[1] - base
-        finally:
-            if not was_tracing:
-                tracemalloc.stop()
+    def measured(label, fn, size=bs, judged=True):
+        indexing = "indexing" in label
+        limit = memory_limit(size, width, indexing)
+        peak, res = traced_peak(fn)
         peaks[label] = peak
-        if peak > limit:
+        if judged and peak > limit:
             msgs.append(
-                f"{label}: peak traced memory {peak} bytes > limit {limit} (buffer_size {bs}, line {width}, "
-                f"{n} residues = {n_buffers} buffers): more than a few buffers of residues were held at once"
+                f"{label}: peak traced memory {peak} bytes > limit {limit} = 16 x buffer + 64 KiB"
+                f"{' + 8 x line' if indexing else ''} (buffer_size {size}, line {width}, records of {len(seq)} and "
+                f"{len(gappy)} residues = {n_buffers} buffers): more than a few buffers of residues were held at once"
             )
         return res
 
-    try:
-        idx, asm = measured("indexing a long record", lambda: index_fasta_file(path, bs))
-    except Exception as e:  # noqa: BLE001
-        return [f"index_fasta_file raised {e!r}"], peaks
-    info = idx.get("long")
-    if info is None or info.length != n:
-        msgs.append(f"long record indexed with length {getattr(info, 'length', None)}, file has {n}")
-        return msgs, peaks
-    jobs = [
-        ("streaming a long forward fragment", [["F", "long", 2, n - 1, 1]]),
-        ("streaming a long reverse fragment", [["F", "long", 2, n - 1, -1]]),
-        ("streaming a long gap", [["G", n, "scaffold"]]),
-    ]
+    def new_index(size, keyword=False):
+        fi = FastaIndex(path, buffer_size=size) if keyword else FastaIndex(path, size)
+        opened.append(fi)
+        return fi
+
     seqs = case.seqs()
-    for label, specs in jobs:
-        want = hashlib.sha256(G.expected_fasta([("m", G.apply_rows(seqs, specs))], 60)).hexdigest()
-        sc = scaffold_from("m", specs)
-        fi = FastaIndex(path, bs)
-        fi.index = idx
+    derived_want = hashlib.sha256(G.expected_fasta([(r.name, r.seq.translate(_MASK)) for r in case.records], 60)).hexdigest()
+    rev_specs = [["F", "long", 2, n - 1, -1]]
+    rev_want = hashlib.sha256(G.expected_fasta([("m", seq[1 : n - 1][::-1].translate(_COMP))], 60)).hexdigest()
+
+    def stream(label, fi, what, want, size=bs, judged=True):
+        """what: a scaffold to write with write_scaffold, or None = write_assembly(fi.assembly)"""
         sink = HashSink()
         try:
-            measured(label, lambda: FastaStream(sink, fi).write_scaffold(sc))
+            if what is None:
+                measured(label, lambda: FastaStream(sink, fi).write_assembly(fi.assembly), size, judged)
+            else:
+                measured(label, lambda: FastaStream(sink, fi).write_scaffold(what), size, judged)
         except Exception as e:  # noqa: BLE001
             msgs.append(f"{label} raised {e!r}")
-            continue
-        finally:
-            close_index(fi)
+            return
         if sink.h.hexdigest() != want:
-            msgs.append(f"{label}: {sink.n} bytes written do not hash to the expected record")
-    G.remove_with_caches(path)
+            msgs.append(f"{label}: the {sink.n} bytes written do not hash to the expected FASTA text")
+
+    def same_as_direct(label, fi, idx, asm):
+        if fi.index is None or fi.assembly is None:
+            msgs.append(f"{label}: index / assembly not set afterwards")
+            return False
+        if index_rows(fi.index) != index_rows(idx):
+            msgs.append(f"{label}: faidx rows {index_rows(fi.index)} differ from index_fasta_file(path, {bs}): {index_rows(idx)}")
+        a, b = agp_text(fi.assembly), agp_text(asm)
+        strip = lambda t: "\n".join(ln for ln in t.splitlines() if not ln.startswith("#"))  # noqa: E731
+        if strip(a) != strip(b):
+            msgs.append(f"{label}: derived assembly differs from that of index_fasta_file(path, {bs}): ...{a[-200:]!r} vs ...{b[-200:]!r}")
+        return True
+
+    try:
+        # 1. the indexing function itself
+        try:
+            idx, asm = measured("indexing a long record", lambda: index_fasta_file(path, bs))
+        except Exception as e:  # noqa: BLE001
+            return [f"index_fasta_file raised {e!r}"], peaks
+        for name, want_len in (("long", len(seq)), ("gappy", len(gappy))):
+            info = idx.get(name)
+            if info is None or info.length != want_len:
+                msgs.append(f"record '{name}' indexed with length {getattr(info, 'length', None)}, file has {want_len}")
+                return msgs, peaks
+        idx_big, asm_big = measured("large buffer: indexing a long record", lambda: index_fasta_file(path, buffer_size=big), big, False)
+        if (index_rows(idx_big), agp_text(asm_big)) != (index_rows(idx), agp_text(asm)):
+            msgs.append(f"index_fasta_file with buffer {bs} and buffer {big} give different faidx rows / derived assemblies")
+
+        # 2. the object routes: FastaIndex(path, buffer_size).auto_load() / .run_indexing()
+        drop_caches(path)
+        cold = new_index(bs, keyword=True)
+        label = f"indexing through FastaIndex(path, buffer_size={bs}).auto_load(), no cache files"
+        try:
+            measured(label, cold.auto_load)
+        except Exception as e:  # noqa: BLE001
+            msgs.append(f"{label} raised {e!r}")
+            return msgs, peaks
+        caches = cache_bytes(path)
+        if None in caches:
+            msgs.append(f"{label}: .fai / .agp not written")
+            return msgs, peaks
+        usable = same_as_direct(label, cold, idx, asm)
+        if usable:
+            stream("streaming the derived assembly (long fragments, long gap) from the index auto_load() built", cold, None, derived_want)
+            stream("streaming a long reverse fragment from the index auto_load() built", cold, scaffold_from("m", rev_specs), rev_want)
+
+        age_caches(path)
+        stale = new_index(bs)
+        label = f"indexing through FastaIndex(path, {bs}).auto_load(), cache files older than the FASTA file"
+        try:
+            measured(label, stale.auto_load)
+            if cache_bytes(path) != caches:
+                msgs.append(f"{label}: .fai / .agp differ from those of the first indexing run")
+        except Exception as e:  # noqa: BLE001
+            msgs.append(f"{label} raised {e!r}")
+
+        again = new_index(bs)
+        label = f"indexing through FastaIndex(path, {bs}).run_indexing()"
+        try:
+            measured(label, again.run_indexing)
+            if cache_bytes(path) != caches:
+                msgs.append(f"{label}: .fai / .agp differ from those of the first indexing run")
+            same_as_direct(label, again, idx, asm)
+        except Exception as e:  # noqa: BLE001
+            msgs.append(f"{label} raised {e!r}")
+
+        warm = new_index(bs)
+        label = f"FastaIndex(path, {bs}).auto_load() with up-to-date cache files"
+        try:
+            measured(label, warm.auto_load)
+            usable = same_as_direct(label, warm, idx, asm)
+        except Exception as e:  # noqa: BLE001
+            msgs.append(f"{label} raised {e!r}")
+            usable = False
+        if usable:
+            stream("streaming the derived assembly (long fragments, long gap) from the index auto_load() read from cache", warm, None, derived_want)
+            stream("streaming a long reverse fragment from the index auto_load() read from cache", warm, scaffold_from("m", rev_specs), rev_want)
+
+        drop_caches(path)
+        cold_big = new_index(big, keyword=True)
+        label = "large buffer: indexing through FastaIndex(path, buffer_size=big).auto_load(), no cache files"
+        try:
+            measured(label, cold_big.auto_load, big, False)
+            if cache_bytes(path) != caches:
+                msgs.append(f"FastaIndex.auto_load() with buffer_size {bs} and {big} write different .fai / .agp files")
+        except Exception as e:  # noqa: BLE001
+            msgs.append(f"{label} raised {e!r}")
+
+        # 3. streaming with an index that was handed to the object (no cache files involved)
+        jobs = [
+            ("streaming a long forward fragment", [["F", "long", 2, n - 1, 1]]),
+            ("streaming a long reverse fragment", rev_specs),
+            ("streaming a long gap", [["G", n, "scaffold"]]),
+        ]
+        for label, specs in jobs:
+            want = rev_want if specs is rev_specs else hashlib.sha256(G.expected_fasta([("m", G.apply_rows(seqs, specs))], 60)).hexdigest()
+            for size, judged in ((bs, True), (big, False)):
+                fi = new_index(size)
+                fi.index = idx
+                stream(label if judged else "large buffer: " + label, fi, scaffold_from("m", specs), want, size, judged)
+    finally:
+        for fi in opened:
+            close_index(fi)
+        G.remove_with_caches(path)
     return msgs, peaks
+
+
+def discrimination(peaks, bs, width):
+    """
+    for every route measured with both buffers: does the large-buffer run (which by the statement may hold a whole
+    record) exceed the limit applied to the small buffer?  If it does, a small-buffer run that held a whole record
+    would have been reported.  -> {route: [small peak, limit, large-buffer peak, bool]}
+    """
+    out = {}
+    for label, peak in peaks.items():
+        if label.startswith("large buffer: "):
+            small = label[len("large buffer: "):].replace("buffer_size=big", f"buffer_size={bs}")
+            if small in peaks:
+                limit = memory_limit(bs, width, "indexing" in small)
+                out[small] = [peaks[small], limit, peak, peak > limit]
+    return out
+
+
+def cli_memory_check(d, n_buffers, seed):
+    """
+    pretext-to-asm has no buffer option (see --help): FASTA input is indexed and streamed with the default buffer
+    of 250 000 residues.  A chromosome n_buffers default buffers long (two long contigs around one long gap, no
+    cache files), reversed as a whole by the Pretext file and written as FASTA -> (messages, peaks)
+    """
+    from click.testing import CliRunner
+
+    from tola.assembly.scripts.pretext_to_asm import cli
+
+    B = DEFAULT_BUFFER
+    rng = random.Random(seed)
+    acgt = bytes(b"ACGTacgt"[i % 8] for i in range(256))
+    na, ng = (n_buffers * 2) // 5, n_buffers // 4
+    chrom = rng.randbytes(na * B + 17).translate(acgt) + b"N" * (ng * B + 5) + rng.randbytes((n_buffers - na - ng) * B + 1).translate(acgt)
+    case = G.FastaCase([G.Rec("scaffold_1", chrom), G.Rec("scaffold_2", b"ACGTTGCATTGACCA" * 5)], 60)
+    sub = d / "cli"
+    sub.mkdir()
+    msgs, peaks = [], {}
+    try:
+        case.write(sub / "in.fa")
+        (sub / "p.agp").write_text(G.pretext_agp([[("scaffold_1", 1, len(chrom), "-", ["Painted"])]]))
+        args = ["--assembly", str(sub / "in.fa"), "--pretext", str(sub / "p.agp"), "--output", str(sub / "x.fa"), "--log-level", "ERROR", "--no-write-log"]
+        label = f"pretext-to-asm (FASTA in, FASTA out, default buffer {B}) on a chromosome of {len(chrom)} residues = {n_buffers} buffers"
+        try:
+            peak, res = traced_peak(lambda: CliRunner().invoke(cli, args))
+        finally:
+            G.reset_logging_after_cli()
+        peaks[label] = peak
+        if res.exit_code != 0:
+            return [f"{label}: exit code {res.exit_code}, {res.exception!r}"], peaks
+        limit = memory_limit(B, 60, True)
+        if peak > limit:
+            msgs.append(
+                f"{label}: peak traced memory {peak} bytes > limit {limit} = 16 x buffer + 64 KiB + 8 x line: "
+                "more than a few buffers of residues were held at once"
+            )
+        want = chrom[::-1].translate(_COMP)
+        found = False
+        for p in sorted(sub.glob("x*.fa")):
+            for rec in p.read_bytes().split(b">")[1:]:
+                body = rec.partition(b"\n")[2].replace(b"\n", b"")
+                if len(body) == len(want):
+                    found = True
+                    if body != want:
+                        msgs.append(f"{label}: the record of that length in {p.name} is not the reverse complement of the chromosome")
+        if not found:
+            msgs.append(f"{label}: no output record of {len(want)} residues was written")
+    finally:
+        shutil.rmtree(sub, ignore_errors=True)
+    return msgs, peaks
+
+
+def pick(msgs, route):
+    """the message about the recorded route if there is one, else the first"""
+    for m in msgs:
+        if route and m.startswith(route):
+            return m
+    return msgs[0] if msgs else None
 
 
 def replay(inp):
     with G.quiet_logging(), G.workdir() as d:
         if inp["kind"] == "memory":
             msgs, _ = memory_check(d, inp["buffer_size"], inp["n_buffers"], inp["width"], inp["seed"])
-            return msgs[0] if msgs else None
+            return pick(msgs, inp.get("route"))
+        if inp["kind"] == "cli-memory":
+            msgs, _ = cli_memory_check(d, inp["n_buffers"], inp["seed"])
+            return pick(msgs, inp.get("route"))
         case = G.FastaCase.from_spec(inp["case"])
         asms = [("replayed", [(n, s) for n, s in inp["assembly"]])] if inp.get("assembly") else assemblies_for(case, random.Random(0), 0)
         problems = check_file(case, d / "r.fa", inp["buffers"], asms, inp["line_length"])
@@ -292,7 +544,8 @@ def run(tier, seed, **opts):
         "(1-3 records up to 200/400 residues, runs ending on line boundaries); per file the buffer sizes 1,2,3,5,7,11,13, "
         "width+-1, 2*width+-1, run/record length+-1, 250000; per (file, assembly) all those buffers for streaming; one "
         "evaluation = one (file, all buffers) index comparison or one (file, assembly, all buffers) stream comparison or "
-        "one tracemalloc measurement; non-trivial = distinct such case with at least 3 distinct buffer sizes and a record "
+        "one tracemalloc measurement of one route (index_fasta_file, FastaIndex.auto_load cold / stale / warm, run_indexing, "
+        "FastaStream over those indexes, pretext-to-asm in the thorough tier) on records hundreds of buffers long; non-trivial = distinct such case with at least 3 distinct buffer sizes and a record "
         "longer than the smallest buffer"
     )
     with G.quiet_logging(), G.workdir() as d:
@@ -339,23 +592,38 @@ def run(tier, seed, **opts):
                 buffers = sorted(keep | set(rng.sample(rest, (12 if quick else 30) - len(keep))))
             do(case, buffers, assemblies_for(case, rng, 2), rng.choice((60, 60, 7, case.width)), sample=k == 1)
         # resource check
-        mem_jobs = [(2048, 220, 60, 1)] if quick else [(4096, 400, 60, 1), (1000, 500, 80, 2), (4093, 800, 100_000, 3), (64, 3000, 60, 4)]
+        mem_jobs = [(2048, 220, 60, 1)] if quick else [(4096, 400, 60, 1), (1000, 500, 80, 2), (4093, 800, 100_000, 3), (64, 3000, 60, 4), (500, 400, 60, 5)]
+        cli_jobs = [] if quick else [(34, 6)]
         peaks_seen = {}
+        discr = {}
         for bs, nb, width, ms in mem_jobs:
             msgs, peaks = memory_check(d, bs, nb, width, ms)
             inp = {"kind": "memory", "buffer_size": bs, "n_buffers": nb, "width": width, "seed": ms}
             for m in msgs:
-                col.fail(m, inp)
-            peaks_seen[f"buffer {bs} x {nb}, line {width}"] = peaks
+                col.fail(m, dict(inp, route=m.split(": ")[0]))
+            key = f"buffer {bs} x {nb}, line {width}"
+            peaks_seen[key] = peaks
+            discr[key] = discrimination(peaks, bs, width)
             for label in peaks or {"none": 0}:
                 col.case(("memory", bs, nb, width, label), sample=inp if label.startswith("streaming a long reverse") else None)
+        for nb, ms in cli_jobs:
+            msgs, peaks = cli_memory_check(d, nb, ms)
+            inp = {"kind": "cli-memory", "n_buffers": nb, "seed": ms}
+            for m in msgs:
+                col.fail(m, dict(inp, route=m.split(": ")[0]))
+            peaks_seen[f"pretext-to-asm, {nb} default buffers"] = peaks
+            for label in peaks or {"none": 0}:
+                col.case(("cli-memory", nb, label))
     return col.result(
         bounds=(
             f"masks to length {max_mask} (quick: every other layout) x 20 layouts; {n_random} random files; <= {12 if quick else 30} buffer sizes per "
             "file; memory: " + "; ".join(f"{nb} buffers of {bs} (line {w})" for bs, nb, w, _ in mem_jobs)
+            + "".join(f"; pretext-to-asm on {nb} buffers of {DEFAULT_BUFFER}" for nb, _ in cli_jobs)
             + "; limit 16 x buffer + 64 KiB (+ 8 x line while indexing)"
         ),
         exhaustive=False,
-        # a measurement, not part of the deterministic result: varies by a few hundred bytes between runs
+        # measurements, not part of the deterministic result: vary by a few hundred bytes between runs
         measured_peaks_bytes=peaks_seen,
+        # per route measured with a small and a larger-than-everything buffer: [small peak, limit, large peak, large > limit]
+        memory_discrimination=discr,
     )
